@@ -106,7 +106,12 @@ def gen_history(rnd, sp):
     while added_rl < nrl:
         ops.append(["rule", added_rl]); added_rl += 1
     ops.append(["set_params", dict(params)])
-    ops.append(["set_species", dict(sp["x0"])])
+    if rnd.random() < 0.5:
+        ops.append(["set_species", dict(sp["x0"])])
+    else:
+        # one call per species
+        for s_ in sp["x0"]:
+            ops.append(["set_species", {s_: sp["x0"][s_]}])
     return ops, (edits_after_init >= 2 and sims_before_final >= 1)
 
 
@@ -207,9 +212,10 @@ def run_case(case):
                 {p: float(v) for p, v in M.get_parameter_dictionary().items() if p not in rule_assigned_params})
 
     pre_ifaces = []
+    last_set_params = max([i_ for i_, o_ in enumerate(case["ops"]) if o_[0] == "set_params"] or [-1])
     for oi, op in enumerate(case["ops"]):
         k = op[0]
-        if oi == len(case["ops"]) - 2 and not lineage:
+        if oi == last_set_params and not lineage:
             # interfaces built on the finished structure but BEFORE the definitive values are set: value edits do not make an
             # interface stale, so simulating through them afterwards must give the current definition's results
             try:
